@@ -60,7 +60,7 @@ struct Pool {
     case 2:
     case 3: return r.range(-6, 6);
     case 4: return r.range(-60, 60);
-    case 5: return big ? (r.coin() ? 1 : -1) * (((i128)1 << 31) + r.range(-2, 2)) : r.range(-1000, 1000);
+    case 5: return big ? (r.coin() ? 1 : -1) * (((i128)1 << 31) + r.range(-2, 2)) : r.coin() ? r.range(-1000, 1000) : (r.coin() ? 1 : -1) * (((i128)1 << 26) + r.range(-2, 2)); // beyond float precision
     case 6: return big && r.chance(1, 3) ? (r.coin() ? 1 : -1) * ((((i128)1) << 63) + r.range(-2, 2)) : r.range(-9, 9);
     default: return r.range(0, 12);
     }
@@ -73,7 +73,7 @@ struct Pool {
     case 3:
     case 4: return r.range(-8, 8);
     case 5: return r.range(-100, 100);
-    case 6: return big ? (r.coin() ? 1 : -1) * (((int64_t)1 << 31) + r.range(-1, 1)) : r.range(-500, 500);
+    case 6: return big ? (r.coin() ? 1 : -1) * (((int64_t)1 << 31) + r.range(-1, 1)) : r.coin() ? r.range(-500, 500) : (r.coin() ? 1 : -1) * (((int64_t)1 << 26) + r.range(-1, 1));
     default: return 2;
     }
   }
